@@ -11,7 +11,7 @@ from harness import c17_graph as G
 
 PROP = 'C17'
 MODEL_MODULES = ['TenpyModel.Util.J', 'TenpyModel.C17.Graph', 'TenpyModel.C17.Legs']
-PROPS_MODULES = ['TenpyModel.C17.PropsLegs', 'TenpyModel.C17.PropsGraph']
+PROPS_MODULES = ['TenpyModel.C17.PropsLegs', 'TenpyModel.C17.PropsGraph', 'TenpyModel.C17.Props2']
 LEAN_MODULES = PROPS_MODULES
 LEVEL = 'proof'
 BUDGET = {'quick': 175, 'thorough': 1500}
